@@ -252,6 +252,8 @@ class ShapeInterp:
             return out
         if isinstance(st, ast.For):
             it = self.ev(fi, st.iter, env)
+            if isinstance(it, tuple) and it and it[0] == "view":
+                it = self.view(it[1], None)
             return self.exec_for(fi, st, it, env, outs)
         if isinstance(st, ast.Assert):
             return [env]
@@ -474,6 +476,8 @@ class ShapeInterp:
         if isinstance(e, ast.ListComp) or isinstance(e, ast.GeneratorExp):
             g = e.generators[0]
             it = self.ev(fi, g.iter, env)
+            if isinstance(it, tuple) and it and it[0] == "view":
+                it = self.view(it[1], None)
             if isinstance(it, ConstMap):         # (filtered) iteration over a constant map: ordered subsequence
                 items = []
                 for k in it.d:
